@@ -58,6 +58,7 @@ class Scenario:
         self.fatal: str | None = None
         self.resp_range: dict[int, tuple] = {}
         self.addr_updates: list[tuple[float, list]] = []
+        self.value_hist: dict = {}
         self.tainted: set[int] = set()  # connections that carried an injected unsolicited response
         self.unsolicited: list[dict] = []
 
@@ -222,6 +223,8 @@ class Scenario:
                 c["t_written"] = rec["t"]
                 rec["call"] = c["no"]
                 return
+        if any(c["t1"] is None and c.get("key") == key for c in self.calls):
+            return  # several identical calls in flight: which one wrote this request is not observable
         if key[0] == "GET":
             self.ctx.violate("C09.ids", "", f"GET {rec['target']} does not correspond to the id set of any call in progress")
 
@@ -446,7 +449,9 @@ class Scenario:
                 l["removed_at"] = loop.time()
                 l["unsub"]()
         elif kind == "big_value":
-            w.acc.values[(op["aid"], op["iid"])] = "v" * op["n"]
+            key = (op["aid"], op["iid"])
+            self.value_hist.setdefault(key, [(0.0, w.acc.values.get(key))]).append((loop.time(), "v" * op["n"]))
+            w.acc.values[key] = "v" * op["n"]
         else:
             raise ValueError(f"unknown op {kind}")
 
@@ -586,6 +591,12 @@ class Scenario:
             if rec["op"] == "get":
                 for key in rec["ids"]:
                     got = rec["result"].get(key, {}).get("value", "<absent>")
+                    hist = self.value_hist.get(key)
+                    if hist:
+                        # values the characteristic held at some instant between the start and the end of the call
+                        ok_vals = [v for i, (tv, v) in enumerate(hist) if tv <= rec["t1"] and (i + 1 == len(hist) or hist[i + 1][0] >= rec["t0"])]
+                        if got in ok_vals:
+                            continue
                     if got != acc.values.get(key):
                         ctx.violate("C05.inbound-content", "read-value",
                                     f"call #{rec['no']}: value of {key} differs from what the accessory sent (len {len(str(got))} vs {len(str(acc.values.get(key)))})")
@@ -1024,6 +1035,8 @@ class Scenario:
                 continue
             if conn.peer_closed_first:
                 continue
+            if any(abs(wr["t"] + 30.0 - tc) <= TOL for wr in self.wire if wr["conn"] == no):
+                continue  # a request written on it (possibly the connector's own re-subscription) hit the 30 s timeout
             stale = [(t, other) for t, other in lost_cbs if other != no and abs(t - tc) <= TOL]
             ctx.obligations += 1
             if stale:
